@@ -360,7 +360,7 @@ pub open spec fn op_text(op: BinaryOp) -> Seq<char> {
 }
 """
 SPEC_OP = r"""
-    ensures r@ == op_text(*op), // [C16:a_diagnostic_names_the_operator_by_its_source_symbol]
+    ensures r@ == op_text(*op), // [C06_C16:a_diagnostic_names_the_operator_by_its_source_symbol]
 """
 SPEC_RT = r"""
     ensures r@ == type_name(*v), // [C16:type_names_in_diagnostics_are_the_documented_ones]
